@@ -1,1 +1,9 @@
-//! gen
+//! Section generators (bytes + field map + model).
+pub mod cfi;
+pub mod expr;
+pub mod index;
+pub mod info;
+pub mod line;
+pub mod lists;
+pub mod mutate;
+pub mod wr;
